@@ -136,6 +136,16 @@ class WordRegions:
             if got != exp:
                 return VIOL({'kind': 'routing', 'word': w, 'centre': centre}, 'compute_features labels != reference',
                             expected=exp, observed=got, evals=nev)
+            for m in ((0, 1, 3, 4) if self.max_moving > 1 else (0, 3)):
+                thr_m = dict(base, min_n_cycles=m)
+                dfm = compute_features(sig, 64, (6, 14), center_extrema=centre, threshold_kwargs=dict(thr_m))
+                exp, _ = ref_labels_cycles(feat, thr_m, m)
+                got = [bool(x) for x in dfm['is_burst'].to_numpy()]
+                nev += 1
+                if got != exp:
+                    return VIOL({'kind': 'routing', 'word': w, 'centre': centre, 'min_n_cycles': m},
+                                'compute_features(threshold_kwargs min_n_cycles=%d) labels != reference' % m,
+                                expected=exp, observed=got, evals=nev)
             grids = {f: region_grid(feat[f]) for f in FEATS}
             feats_only = df0.drop(columns=['is_burst'])
             moving_sets = [c for k in range(1, self.max_moving + 1) for c in itertools.combinations(FEATS, k)]
